@@ -28,10 +28,13 @@ pub fn check_str(s: &str, key_by_text: bool) -> CaseReport {
         let mut toks: Vec<(usize, usize, Syntax)> = Vec::new();
         let mut pos = 0usize;
         for t in Lexer::new(s) {
-            if t.len == 0 {
+            // whatever integer type the lexer uses for a token's length (usize today)
+            #[allow(clippy::useless_conversion)]
+            let tlen: usize = usize::try_from(t.len).unwrap_or(usize::MAX / 4);
+            if tlen == 0 {
                 return Err(("empty-token", format!("token {:?} of length 0 at byte {}", t.kind, pos)));
             }
-            let end = pos + t.len;
+            let end = pos + tlen;
             if end > s.len() || !s.is_char_boundary(end) {
                 return Err(("token-off-boundary", format!("token {:?} ends at byte {} (len {})", t.kind, end, s.len())));
             }
@@ -135,7 +138,7 @@ fn nth(len: usize, idx: u64) -> String {
 pub const REDUCED: [&str; 20] = ["1", ".", "e", "+", "-", "*", "/", "^", "%", "(", ")", "{", "}", ",", "m", "t", "o", "é", " ", "\u{3000}"];
 
 pub fn run_check(ctx: &Ctx) {
-    ctx.set_rule("all strings up to the stated length over a 40-symbol alphabet (digits, operators, letters, braces, multi-byte characters, Unicode blanks) are enumerated; oracle: tokens non-empty, contiguous, on char boundaries, covering the input, the unit parser's leaves (run first, on the same thread) are a prefix of the token sequence, and the root parse tree's leaves equal the token sequence (start, end, kind); non-trivial = at least two different token kinds; enumerated strings are distinct by construction");
+    ctx.set_rule("all strings up to the stated length over a 40-symbol alphabet (digits, operators, letters, braces, multi-byte characters, Unicode blanks) are enumerated, plus random longer strings and a fixed family of inputs with one token of 2^16..2^17 bytes (blanks, digits, letters); oracle: tokens non-empty, contiguous, on char boundaries, covering the input, the unit parser's leaves (run first, on the same thread) are a prefix of the token sequence, and the root parse tree's leaves equal the token sequence (start, end, kind); non-trivial = at least two different token kinds; enumerated strings are distinct by construction");
     let corpus: Vec<(String, StrCase)> = load_corpus("C12");
     let cases: Vec<StrCase> = corpus.into_iter().map(|c| c.1).collect();
     ctx.run_list("corpus", &cases, |c| check_str(&c.input, true), |c| to_json(c));
@@ -160,11 +163,49 @@ pub fn run_check(ctx: &Ctx) {
         |c| check_str(&c.input, true),
         |c| to_json(c),
     );
+    let huge = huge_token_inputs();
+    ctx.run_list("huge-tokens", &huge, |c| check_str(&c.text(), false), |c| to_json(c));
     ctx.run_gen("random-unicode", || ".{0,30}".prop_map(|s| StrCase { input: s }), n / 3, |c| check_str(&c.input, true), |c| to_json(c));
     ctx.run_gen("random-any-string", || any::<String>().prop_map(|s| StrCase { input: s }), n / 6, |c| check_str(&c.input, true), |c| to_json(c));
 }
 
+/// An input with one huge token, kept as a recipe so that evidence and replay files stay small.
+#[derive(Clone, Debug, Serialize, Deserialize)]
+pub struct HugeCase {
+    pub prefix: String,
+    pub repeat: String,
+    pub count: usize,
+    pub suffix: String,
+}
+
+impl HugeCase {
+    pub fn text(&self) -> String {
+        format!("{}{}{}", self.prefix, self.repeat.repeat(self.count), self.suffix)
+    }
+}
+
+/// Inputs with one token of 2^16 / 2^17 bytes and more (a run of blanks, of digits, of letters, of zeros behind
+/// a point) next to ordinary tokens: whatever integer width a token's length is kept in must hold it.
+pub fn huge_token_inputs() -> Vec<HugeCase> {
+    let mut v = Vec::new();
+    let mk = |p: &str, r: &str, n: usize, s: &str| HugeCase { prefix: p.into(), repeat: r.into(), count: n, suffix: s.into() };
+    for n in [65_535usize, 65_536, 65_537, 70_000, 131_073] {
+        v.push(mk("1 +", " ", n, "2"));
+        v.push(mk("", "\t", n, "1 + 2"));
+        v.push(mk("0.", "0", n, "5 * 2"));
+        v.push(mk("", "0", n, "42 + 1"));
+        v.push(mk("1 ", "a", n, " 2"));
+        v.push(mk("(1 + 2)", " \t", n / 2 + 1, "* 3"));
+    }
+    v
+}
+
 pub fn replay(ctx: &Ctx, case: &Value) {
+    if case.get("count").is_some() {
+        let c: HugeCase = serde_json::from_value(case.clone()).expect("replay file holds a HugeCase");
+        ctx.run_list("replay", &[c], |c| check_str(&c.text(), false), |c| to_json(c));
+        return;
+    }
     let c: StrCase = serde_json::from_value(case.clone()).expect("replay file holds {input}");
     ctx.run_list("replay", &[c], |c| check_str(&c.input, true), |c| to_json(c));
 }
